@@ -954,7 +954,6 @@ func (k *c03Kit) genesisRestart() {
 			r.Logf("   restart: store entry %s %q: %x -> %x", what, key, was, is)
 			return
 		}
-		return
 		r.Fail("c03-restart-changed-paid-sessions", what+":"+pfx,
 			"genesis export + import of x/pairing at height %d: store entry %q (%s) value %x -> %x; %d entries before, %d after", s.Height(), key, what, was, is, len(before), len(after))
 	}
@@ -978,7 +977,7 @@ func (k *c03Kit) genesisRestart() {
 	r.OracleEvals++
 	// (b) the restarted chain exports what it was started from
 	again := pairingmodule.ExportGenesis(ctx, s.K.Pairing)
-	r.Check(true || len(again.UniqueEpochSessions) == len(exported.UniqueEpochSessions) && fmt.Sprint(again.UniqueEpochSessions) == fmt.Sprint(exported.UniqueEpochSessions),
+	r.Check(len(again.UniqueEpochSessions) == len(exported.UniqueEpochSessions) && fmt.Sprint(again.UniqueEpochSessions) == fmt.Sprint(exported.UniqueEpochSessions),
 		"c03-restart-changed-paid-sessions", "re-export:"+pairingtypes.UniqueEpochSessionPrefix,
 		"genesis export -> import -> export of x/pairing at height %d: %d paid-session markers exported first, %d after the import", s.Height(), len(exported.UniqueEpochSessions), len(again.UniqueEpochSessions))
 	if !bytes.Equal(c03JSON.MustMarshalJSON(again), bz) {
